@@ -220,12 +220,24 @@ mod kani_harnesses {
 
 }
 
-// Native checks (cargo test with --cfg rdest_verif): validation of shims Verus has to assume, on the real functions
+// Native checks (cargo test with --cfg rdest_verif)
 #[cfg(all(test, rdest_verif))]
 mod native {
+    // C16: "unterminated lists or dictionaries ... are rejected with an error".  On the current tree this FAILS for the
+    // inputs below (finding D12b, recorded in /verif/known_findings.jsonl; not repairable without editing the test
+    // test_metainfo::missing_announce, which feeds an unterminated dictionary and expects a metainfo-level error).
     #[test]
-    fn native_unterminated_containers_known_finding() {
-        // D12b (known finding, recorded in /verif/known_findings.jsonl): unterminated lists / dictionaries are accepted
-        assert!(crate::BDecoder::from_array(b"li1e").is_ok());
+    fn native_c16_unterminated_containers_rejected() {
+        for input in [&b"li1e"[..], &b"l"[..], &b"d"[..], &b"d1:ai1e"[..], &b"ll"[..]] {
+            assert!(crate::BDecoder::from_array(input).is_err(), "unterminated container accepted: {:?}", std::str::from_utf8(input));
+        }
+    }
+    // C16: a byte string without ':' after its length is truncated input (regression guard for the D12a repair)
+    #[test]
+    fn native_c16_missing_colon_rejected() {
+        for input in [&b"0"[..], &b"00"[..], &b"000"[..], &b"i1e00"[..], &b"1"[..], &b"12"[..]] {
+            assert!(crate::BDecoder::from_array(input).is_err(), "missing ':' accepted: {:?}", std::str::from_utf8(input));
+        }
+        assert!(crate::BDecoder::from_array(b"0:").is_ok() && crate::BDecoder::from_array(b"1:a").is_ok());
     }
 }
